@@ -259,6 +259,14 @@ func (m *Machine) atReturn(c *Config, fn *ssa.Function, fc *FuncContract, result
 	m.cur.curResults = results
 	m.regionEnv = env
 	defer func() { m.cur.curResults = nil; m.regionEnv = nil }()
+	if m.concord {
+		ob := &Obligation{Fn: m.cur.key, Kind: "path-cover", PC: append([]Term(nil), c.st.pc...), Goal: TTrue, ExpectSat: true,
+			Abstract: c.st.abstract, Path: m.cur.paths, Inputs: m.cur.inputs, Ctx: m.cur, Results: results, RetState: c.st}
+		if pv, ok := c.st.ghost["@pos"].(Term); ok {
+			ob.PosTerm = &pv
+		}
+		m.obligs = append(m.obligs, ob)
+	}
 	m.applySets(env, fc.Sets, c.st)
 	for _, e := range append(append([]*Clause{}, fc.Ensures...), fc.Proves...) {
 		if opts.onlyProps != nil && !propsIntersect(e.Props, opts.onlyProps) {
